@@ -94,6 +94,10 @@ def gen_case(rng, tier):
         scheds.append({'policy': 'sweep', 'frac': [rng.random()]})
     scheds.append({'policy': 'sweep', 'frac': [rng.random(), rng.random()]})
     scheds.append({'policy': 'sweep', 'window': True})       # aimed at the thread-local windows (parsing phase)
+    # lock-step through one of the functions where builds touch things outside their own trees (files, look-up, per-thread defaults):
+    # the threads take turns at every line of it
+    scheds.append({'policy': 'stepfn', 'fnames': rng.choice([['add_source'], ['add_source'], ['add_source', 'on_preprocess_impl'], ['parse', 'add_source'],
+                                                            ['get_lookup_dirs', 'on_preprocess_impl'], ['preprocess', 'flatten'], ['add_source', 'add_multiple_sources', 'build']])})
     if rng.random() < 0.3:
         scheds.append({'policy': 'free', 'reps': 3})
     return {'jobs': jobs, 'scheds': scheds, 'shared': shared}
@@ -197,6 +201,8 @@ def run(case):
                 continue
             if sc['policy'] == 'random':
                 s = sched.Sched(len(fns), 'random', seed=sc['seed'], p=sc['p'])
+            elif sc['policy'] == 'stepfn':
+                s = sched.Sched(len(fns), 'stepfn', fnames=sc['fnames'])
             elif sc.get('window'):
                 # the parsing phase of the first thread is where the thread-local defaults are installed: sweep a point inside the first 15%
                 s = sched.Sched(len(fns), 'sweep', points=[max(1, int(total * 0.15 * random.Random(util.sig(case)).random() / len(fns)))])
